@@ -9,7 +9,9 @@
    Findable / GetVSound on the *design*; Dev_* constants switch on the algorithms as they
    shipped at the pinned commit (each must yield a counterexample - see *_asshipped cfgs). *)
 EXTENDS Naturals, Sequences, FiniteSets, TLC
-CONSTANTS Obj,            \* object -> [id, uid (Seq of id tokens), arches, type]
+CONSTANTS Obj,            \* object -> [id, uid, flat (uid without dashes), arches, type]
+          ChildUid(_, _),  \* the UID a child with a given id must have under a parent UID
+                           \* (generation: UIDs are token sequences, Append; recorded traces: strings, p-i)
           ROOT, None,
           Dev_FalsyParent,      \* F-11a  parent-arch check skipped while the parent has no children
           Dev_ParentSetFirst,   \* F-11c  a refused add has already overwritten variant.parent
@@ -34,8 +36,8 @@ Anc(c, p, n) == IF c = ROOT \/ c = None \/ n = 0 THEN {} ELSE {c} \cup Anc(p[c],
 
 \* ---- validation of object o under parent pointers p (composeinfo.py Variant._validate_*)
 UidOk(o, p) == IF p[o] = None
-               THEN Flat(Obj[o].uid) = Obj[o].id           \* top level: UID minus dashes = id
-               ELSE Obj[o].uid = Append(Obj[p[o]].uid, Obj[o].id)
+               THEN Obj[o].flat = Obj[o].id                \* top level: UID minus dashes = id
+               ELSE Obj[o].uid = ChildUid(Obj[p[o]].uid, Obj[o].id)
 ArchChecked(o, p, k) == p[o] # None /\ (~Dev_FalsyParent \/ DOMAIN k[p[o]] # {})
 ArchOk(o, p, k) == ArchChecked(o, p, k) => Obj[o].arches \subseteq Obj[p[o]].arches
 ValidObj(o, p, k) == Obj[o].arches # {} /\ UidOk(o, p) /\ ArchOk(o, p, k)
